@@ -180,6 +180,9 @@ func (c *Connect) Unpack(r io.Reader) (err error) {
 	}
 	c.PasswordFlag = (1 & (connectFlags >> 6)) > 0
 	c.UsernameFlag = (1 & (connectFlags >> 7)) > 0
+	if IsVersion3X(c.Version) && c.PasswordFlag && !c.UsernameFlag { // v311 [MQTT-3.1.2-22]
+		return codes.ErrMalformed
+	}
 	c.KeepAlive, err = readUint16(bufr)
 	if err != nil {
 		return codes.ErrMalformed
